@@ -85,6 +85,10 @@ class Check:
 
     def floor(self, rule, what, count, minimum):
         self.floors.append({"rule": rule, "what": what, "count": count, "min": minimum})
+        if count < minimum and self.violations:
+            # refuted obligations cut the analysis short: the refutation stands, the floor is moot
+            self.notes.append("floor %s/%s not evaluated: analysis stopped at a refuted obligation" % (rule, what))
+            return
         if count < minimum:
             raise Broken("floor not met for %s: %s = %d < %d (rule matches fewer instances than confirmed by hand)"
                          % (rule, what, count, minimum))
